@@ -13,6 +13,14 @@
 (* of every histogram it receives before it asks for the next one, and     *)
 (* into context.bins of every cell IterateBins yields.                     *)
 (*                                                                         *)
+(* Abnormal values: the analysis of a cell raises on a value it cannot     *)
+(* digest (FillRaises); the caller catches the exception and goes on.      *)
+(* Stateful analyses: every cell's copy has its own state that its         *)
+(* compute() changes (cst).  Object reuse: ONE IterateBins element gets    *)
+(* the first histogram, then (same run) the last histogram of a second     *)
+(* SplitIntoBins that splits the same analysis by another variable over    *)
+(* the same edges, then is run a second time (IterFlow).                   *)
+(*                                                                         *)
 (* Code: lena/structures/split_into_bins.py (SplitIntoBins.__init__ deep   *)
 (* copy per cell, fill, compute, _MdSeqMap, IterateBins.run, MapBins.run), *)
 (* lena/structures/hist_functions.py (get_bin_on_value, init_bins,         *)
@@ -44,8 +52,14 @@ EmptyPair == [h |-> FALSE, p |-> TRUE]
 PAll(n) == [i \in 1..n |-> Full]
 PAlt(n) == [i \in 1..n |-> CASE i % 3 = 1 -> Bare [] i % 3 = 2 -> Full [] OTHER -> EmptyPair]
 PAlt2(n) == [i \in 1..n |-> CASE i % 3 = 1 -> EmptyPair [] i % 3 = 2 -> Bare [] OTHER -> Full]
-MkFlow(xs, hs) == [i \in 1..Len(xs) |-> [x |-> xs[i], h |-> hs[i].h, p |-> hs[i].p]]
-AllKinds == {"collect", "collect2", "nonempty", "pervalue", "shift", "mutate", "post", "postdup"}
+MkFlowF(xs, hs, fs) == [i \in 1..Len(xs) |-> [x |-> xs[i], h |-> hs[i].h, p |-> hs[i].p, f |-> fs[i]]]
+MkFlow(xs, hs) == MkFlowF(xs, hs, [i \in 1..Len(xs) |-> "none"])
+\* which values the analysis cannot digest: one of them, or all
+FPats(n, excs) == {[i \in 1..n |-> IF i = j THEN k ELSE "none"] : j \in 1..n, k \in excs}
+                  \cup {[i \in 1..n |-> k] : k \in excs}
+StatefulKinds == {"seen", "log"}
+BaseKinds == {"collect", "collect2", "nonempty", "pervalue", "shift", "mutate", "post", "postdup"}
+AllKinds == BaseKinds \cup StatefulKinds
 SomeKinds == {"collect2", "nonempty", "mutate", "postdup"}
 \* cut: compute() is first called after that many values (-1: after the whole flow)
 \* form: how the edges are written (lists / tuples at each level, see SplitIntoBinsSem.tla)
@@ -57,27 +71,73 @@ S1(e, n, kinds, pats) == {Scen(<<e>>, k, MkFlow(xs, hs), -1) :
 \* the same with compute() called early as well
 S1Cut(e, n, kinds, pats) == {Scen(<<e>>, k, MkFlow(xs, hs), c) :
                                k \in kinds, xs \in SeqsUpTo({<<c2>> : c2 \in Coords(e)}, n), hs \in pats, c \in 0..(n - 1)}
+\* flows with values on which the cell's analysis raises
+S1F(e, n, kinds, pats, excs, cuts) == {Scen(<<e>>, k, MkFlowF(xs, hs, fs), c) :
+                                         k \in kinds, xs \in SeqsUpTo({<<c2>> : c2 \in Coords(e)}, n) \ {<<>>}, hs \in pats,
+                                         fs \in FPats(n, excs), c \in cuts}
 \* two-dimensional scenarios over selected coordinates per axis
 C2(e) == {e[1] - 1, e[1], e[1] + 1, e[2], e[Len(e)]}
 S2(e1, e2, n, kinds) == {Scen(<<e1, e2>>, k, MkFlow(xs, PAlt(n)), -1) :
                            k \in kinds, xs \in SeqsUpTo(C2(e1) \X C2(e2), n)}
+S2F(e1, e2, n, kinds, excs) == {Scen(<<e1, e2>>, k, MkFlowF(xs, PAlt(n), fs), -1) :
+                                  k \in kinds, xs \in SeqsUpTo(C2(e1) \X C2(e2), n) \ {<<>>}, fs \in FPats(n, excs)}
 WellCut(s) == s.cut <= Len(s.flow)
-Quick(u) == S1(E2, 2, AllKinds, {PAll(2), PAlt(2)}) \cup S1(E3, 2, AllKinds, {PAll(2), PAlt2(2)})
-            \cup S1(E3, 3, {"collect2", "mutate"}, {PAlt(3)}) \cup S1(E4, 2, {"nonempty", "postdup"}, {PAlt(2)})
-            \cup {s \in S1Cut(E3, 2, {"collect2", "mutate", "nonempty"}, {PAll(2), PAlt(2)}) : WellCut(s)}
-            \cup S2(E3, E3, 2, {"collect2"}) \cup S2(E3, E2, 2, {"collect", "pervalue"})
-            \cup WithForm(S2(E3, E2, 1, {"collect", "postdup"}), {"t", "lt", "tl"})
-            \cup WithForm(S1(E3, 2, {"collect2"}, {PAlt(2)}), {"t"})
-Thorough(u) == S1(E2, 3, AllKinds, {PAll(3), PAlt(3)}) \cup S1(E3, 3, AllKinds, {PAll(3), PAlt2(3)})
-               \cup S1(E3, 4, {"collect2"}, {PAlt(4)}) \cup S1(E4, 3, SomeKinds, {PAlt(3)})
-               \cup {s \in S1Cut(E3, 3, {"collect2", "mutate"}, {PAlt(3)}) : WellCut(s)}
-               \cup {s \in S1Cut(E2, 2, AllKinds, {PAll(2), PAlt(2)}) : WellCut(s)}
-               \cup S2(E3, E3, 2, SomeKinds) \cup S2(E3, E2, 2, AllKinds) \cup S2(E2, E4, 2, SomeKinds)
-               \cup WithForm(S2(E3, E2, 2, {"collect2", "mutate"}), {"t", "lt", "tl"})
-               \cup WithForm(S2(E2, E4, 1, AllKinds), {"t", "lt", "tl"})
-               \cup WithForm(S1(E3, 3, {"collect2", "nonempty"}, {PAlt(3)}) \cup S1(E2, 2, AllKinds, {PAlt(2)}), {"t"})
-Tiny(u) == {s \in S1Cut(E3, 2, {"collect2", "nonempty"}, {PAlt(2)}) : WellCut(s)} \cup S2(E3, E2, 1, {"collect"})
-           \cup WithForm(S2(E3, E2, 1, {"collect"}), {"t", "lt", "tl"})
+QuickExcs == {"IndexError", "KeyError"}        \* ("LenaIndexError" comes with the stateful analysis)
+AllExcs == {"IndexError", "LenaIndexError", "KeyError", "TypeError", "ValueError"}
+\* Families of scenarios (a sequence of sets; Init picks a family, then a scenario: TLC does not build their
+\* union, which costs a linear search per element - equal scenarios of two families are one initial state)
+Quick(u) == <<
+    S1(E2, 2, BaseKinds, {PAll(2), PAlt(2)}),
+    S1(E3, 2, BaseKinds, {PAll(2), PAlt2(2)}),
+    S1(E3, 3, {"collect2", "mutate"}, {PAlt(3)}),
+    S1(E4, 2, {"nonempty", "postdup"}, {PAlt(2)}),
+    {s \in S1Cut(E3, 2, {"collect2", "mutate", "nonempty"}, {PAll(2), PAlt(2)}) : WellCut(s)},
+    S2(E3, E3, 2, {"collect2"}),
+    S2(E3, E2, 2, {"collect", "pervalue"}),
+    WithForm(S2(E3, E2, 1, {"collect", "postdup"}), {"t", "lt", "tl"}),
+    WithForm(S1(E3, 2, {"collect2"}, {PAlt(2)}), {"t"}),
+    \* analyses with a state of their own: compute() early, twice, again; three cells; two dimensions
+    {s \in S1Cut(E3, 2, StatefulKinds, {PAlt(2)}) : WellCut(s)},
+    S1(E2, 2, StatefulKinds, {PAll(2)}),
+    S1(E4, 2, {"log"}, {PAlt2(2)}),
+    S2(E3, E2, 1, StatefulKinds),
+    \* values the analysis raises on
+    S1F(E3, 2, {"collect", "mutate"}, {PAlt(2)}, QuickExcs, {-1}),
+    S1F(E3, 2, {"seen"}, {PAlt(2)}, {"LenaIndexError"}, {1}),
+    S2F(E3, E2, 1, {"collect"}, QuickExcs)
+  >>
+Thorough(u) == <<
+    S1(E2, 3, BaseKinds, {PAll(3), PAlt(3)}),
+    S1(E3, 3, BaseKinds, {PAll(3), PAlt2(3)}),
+    S1(E3, 4, {"collect2"}, {PAlt(4)}),
+    S1(E4, 3, SomeKinds, {PAlt(3)}),
+    {s \in S1Cut(E3, 3, {"collect2", "mutate"}, {PAlt(3)}) : WellCut(s)},
+    {s \in S1Cut(E2, 2, AllKinds, {PAll(2), PAlt(2)}) : WellCut(s)},
+    S2(E3, E3, 2, SomeKinds),
+    S2(E3, E2, 2, BaseKinds),
+    S2(E2, E4, 2, SomeKinds),
+    WithForm(S2(E3, E2, 2, {"collect2", "mutate"}), {"t", "lt", "tl"}),
+    WithForm(S2(E2, E4, 1, AllKinds), {"t", "lt", "tl"}),
+    WithForm(S1(E3, 3, {"collect2", "nonempty"}, {PAlt(3)}) \cup S1(E2, 2, AllKinds, {PAlt(2)}), {"t"}),
+    \* analyses with a state of their own
+    {s \in S1Cut(E3, 3, StatefulKinds, {PAlt(3)}) : WellCut(s)},
+    S1(E2, 3, StatefulKinds, {PAll(3)}),
+    S1(E4, 3, {"log"}, {PAlt2(3)}),
+    S2(E3, E3, 2, {"seen"}),
+    S2(E3, E2, 1, {"log"}),
+    \* values the analysis raises on
+    S1F(E3, 3, {"collect"}, {PAlt(3)}, {"LenaIndexError"}, {1}),
+    S1F(E3, 2, {"mutate", "seen", "log", "postdup"}, {PAlt(2)}, {"IndexError", "KeyError", "ValueError"}, {-1}),
+    S1F(E2, 2, AllKinds, {PAll(2)}, {"IndexError", "TypeError"}, {-1}),
+    S2F(E3, E2, 2, {"collect"}, {"KeyError"}),
+    S2F(E2, E4, 1, {"mutate", "log"}, AllExcs)
+  >>
+Tiny(u) == <<
+    {s \in S1Cut(E3, 2, {"collect2", "nonempty", "log"}, {PAlt(2)}) : WellCut(s)},
+    S2(E3, E2, 1, {"collect"}),
+    S1F(E3, 2, {"collect"}, {PAlt(2)}, QuickExcs, {-1, 1}),
+    WithForm(S2(E3, E2, 1, {"collect"}), {"t", "lt", "tl"})
+  >>
 Scenarios == CASE U = "quick" -> Quick(U) [] U = "thorough" -> Thorough(U) [] U = "tiny" -> Tiny(U)
 
 (***************************************************************************)
@@ -94,17 +154,20 @@ VARIABLES sc,       \* the scenario [edges, kind, flow, cut]
           round,    \* compute() calls finished
           out,      \* histograms yielded by the compute() in progress: [bins, ctx, w]
           outs,     \* the finished compute() calls: [n |-> values filled before, hists |-> their out]
-          it        \* values yielded by IterateBins over the first histogram of the last compute()
-vars == <<sc, pos, cells, tmpl, last, hctx, vctx, phase, round, out, outs, it>>
+          it,       \* values yielded by the one IterateBins element over IterFlow
+          cst,      \* cell -> the state its copy of a stateful analysis keeps between compute() calls
+          errs      \* exceptions fill() has raised to the caller: [pos, exc]
+vars == <<sc, pos, cells, tmpl, last, hctx, vctx, phase, round, out, outs, it, cst, errs>>
 
 edges == sc.edges
 \* the edges as SplitIntoBins reads them from what the user wrote
 ReadEdges == AxesWritten(EdgesWritten(sc.edges, sc.form))
 flow == sc.flow
-Init == /\ sc \in Scenarios
+Init == /\ \E fam \in DOMAIN Scenarios : sc \in Scenarios[fam]
         /\ pos = 0 /\ last = 0 /\ phase = "fill" /\ round = 0 /\ out = <<>> /\ outs = <<>> /\ it = <<>> /\ tmpl = <<>>
         /\ cells = [idx \in Cells(ReadEdges) |-> <<>>]         \* init_bins(edges, seq, deepcopy=True)
         /\ hctx = Ctx(0, 0) /\ vctx = [i \in 1..Len(sc.flow) |-> ArrivingCtx(sc.flow, i)]
+        /\ cst = [idx \in Cells(ReadEdges) |-> [seen |-> 0, log |-> 0]] /\ errs = <<>>
 
 Route == CellOf(flow[pos + 1].x, edges)                        \* get_bin_on_value
 \* the walk through self.bins: the first dimension whose index is outside decides
@@ -114,22 +177,33 @@ FirstOut(idx) == CHOOSE d \in 1..Len(edges) : ~(idx[d] >= 1 /\ idx[d] <= NCells(
 ComputeDue == (round \in {0, 1} /\ pos = sc.cut) \/ (round = 2 /\ pos = Len(flow) /\ sc.cut < Len(flow))
 Filling == phase = "fill" /\ pos < Len(flow) /\ ~ComputeDue
 Rest == <<sc, tmpl, phase, round, out, outs, it>>
-FillInside == /\ Filling /\ IsCell(Route, edges)
+Fails == flow[pos + 1].f # "none"                               \* the cell's analysis cannot digest the value
+FillInside == /\ Filling /\ IsCell(Route, edges) /\ ~Fails
               /\ hctx' = vctx[pos + 1]                                       \* context = copy.deepcopy(context), first
               /\ cells' = [cells EXCEPT ![Route] = Append(@, pos + 1)]      \* subarr.fill(val): the cell's sequence runs,
               /\ vctx' = IF Mutates(sc.kind) /\ flow[pos + 1].p              \* its pre-element may write into the context
                          THEN [vctx EXCEPT ![pos + 1].mut = pos + 1] ELSE vctx
               /\ last' = pos + 1 /\ pos' = pos + 1
-              /\ UNCHANGED Rest
+              \* an accumulator that yields its own context object starts a new one with a value that has a context
+              /\ cst' = IF sc.kind = "log" /\ flow[pos + 1].h THEN [cst EXCEPT ![Route].log = 0] ELSE cst
+              /\ UNCHANGED errs /\ UNCHANGED Rest
+\* subarr.fill(val) raises: the exception reaches the caller of fill(), no cell has recorded the value.
+\* (_cur_context is left as it was here, as in the code; HistCtxSet allows the other choice as well.)
+FillRaises == /\ Filling /\ IsCell(Route, edges) /\ Fails
+              /\ errs' = Append(errs, [pos |-> pos + 1, exc |-> flow[pos + 1].f])
+              /\ pos' = pos + 1 /\ UNCHANGED <<cells, cst, last, hctx, vctx>> /\ UNCHANGED Rest
 FillUnderflow == /\ Filling /\ ~IsCell(Route, edges) /\ Route[FirstOut(Route)] = 0     \* if ind < 0: return
-                 /\ pos' = pos + 1 /\ UNCHANGED <<cells, last, hctx, vctx>> /\ UNCHANGED Rest
+                 /\ pos' = pos + 1 /\ UNCHANGED <<cells, cst, errs, last, hctx, vctx>> /\ UNCHANGED Rest
 FillOverflow == /\ Filling /\ ~IsCell(Route, edges) /\ Route[FirstOut(Route)] # 0      \* except IndexError: return
-                /\ pos' = pos + 1 /\ UNCHANGED <<cells, last, hctx, vctx>> /\ UNCHANGED Rest
-Kept == <<sc, pos, cells, tmpl, last, hctx, vctx>>
+                /\ pos' = pos + 1 /\ UNCHANGED <<cells, cst, errs, last, hctx, vctx>> /\ UNCHANGED Rest
+Kept == <<sc, pos, cells, tmpl, last, hctx, vctx, errs>>
 StartCompute == /\ phase = "fill" /\ ComputeDue
-                /\ phase' = "compute" /\ UNCHANGED Kept /\ UNCHANGED <<round, out, outs, it>>
-\* every cell's own generator: cell.compute()
-CellRes(idx) == InnerSem(sc.kind, flow, cells[idx])
+                /\ phase' = "compute" /\ UNCHANGED Kept /\ UNCHANGED <<round, out, outs, it, cst>>
+\* every cell's own generator: cell.compute() of the cell's own copy, in the state that copy is in
+CellRes(idx) == LET src == LastCtx(flow, cells[idx]) IN
+                CASE sc.kind = "seen" -> <<R("pc", Append(cells[idx], cst[idx].seen + 1), src, 0)>>
+                  [] sc.kind = "log" -> <<R("c", cells[idx], src, cst[idx].log + 1)>>
+                  [] OTHER -> InnerSem(sc.kind, flow, cells[idx])
 \* the consumer has written into the context of the histogram yielded last
 Written == IF out = <<>> THEN TRUE ELSE out[Len(out)].w # 0
 \* next(generators): one more result from every cell, or StopIteration from the shortest; the histogram
@@ -137,33 +211,52 @@ Written == IF out = <<>> THEN TRUE ELSE out[Len(out)].w # 0
 ComputeNext == /\ phase = "compute" /\ Written /\ \A idx \in Cells(edges) : Len(CellRes(idx)) > Len(out)
                /\ out' = Append(out, [bins |-> [idx \in Cells(edges) |-> CellRes(idx)[Len(out) + 1]],
                                       ctx |-> hctx, w |-> 0])                  \* copy.deepcopy(cur_context)
+               \* the stateful elements of every cell's copy have served one more result
+               /\ cst' = IF Stateful(sc.kind) THEN [idx \in Cells(edges) |-> [seen |-> cst[idx].seen + 1, log |-> cst[idx].log + 1]]
+                         ELSE cst
                /\ UNCHANGED Kept /\ UNCHANGED <<phase, round, outs, it>>
 WriteCtx == /\ phase = "compute" /\ ~Written
             /\ out' = [out EXCEPT ![Len(out)].w = Len(out)]                    \* context["touched"] = k
-            /\ UNCHANGED Kept /\ UNCHANGED <<phase, round, outs, it>>
+            /\ UNCHANGED Kept /\ UNCHANGED <<phase, round, outs, it, cst>>
 LastCompute == round = 2 \/ (round = 1 /\ sc.cut = Len(flow))
 ComputeStop == /\ phase = "compute" /\ Written /\ \E idx \in Cells(edges) : Len(CellRes(idx)) <= Len(out)
+               /\ UNCHANGED cst
                /\ outs' = Append(outs, [n |-> pos, hists |-> out]) /\ out' = <<>> /\ round' = round + 1
                /\ phase' = IF ~LastCompute THEN "fill" ELSE IF out = <<>> THEN "done" ELSE "iter"
                /\ UNCHANGED Kept /\ UNCHANGED it
 \* the histograms of the last compute()
 Final == outs[Len(outs)].hists
-\* IterateBins.run over the first histogram: itertools.product over the cell indices.  Every yielded
-\* value carries, as context.bins, its own fresh copy of the histogram's context (touched = 0).  The
-\* consumer writes into that copy (Mutate) before it pulls the next cell.
-LastTouched == IF it = <<>> THEN TRUE ELSE it[Len(it)].touched # 0
-IterNext == /\ phase = "iter" /\ Len(it) < Len(CellSeq(edges)) /\ LastTouched
-            /\ LET idx == CellSeq(edges)[Len(it) + 1] IN
-               it' = Append(it, [idx |-> idx, e |-> CellEdges(idx, edges), content |-> Final[1].bins[idx],
-                                 bins |-> hctx, touched |-> 0])               \* copy.deepcopy(hist_context)
-            /\ UNCHANGED Kept /\ UNCHANGED <<phase, round, out, outs>>
+\* The histograms ONE IterateBins element is given.  var "x": histogram number k of the last compute();
+\* var "y": histogram number k of a second SplitIntoBins built from the same analysis and the same edges
+\* whose argument variable has another name but routes alike (it holds the same bins, ComputeZip, and
+\* carries that variable in context.variable).  run 2: the same element is run on a second flow.
+IterFlow == <<[run |-> 1, var |-> "x", k |-> 1], [run |-> 1, var |-> "y", k |-> Len(Final)], [run |-> 2, var |-> "y", k |-> 1]>>
+NC == Len(CellSeq(edges))
+\* IterateBins.run: for every histogram itertools.product over the cell indices.  Every yielded
+\* value carries, as context.bins, its own fresh copy of the histogram's context (touched = 0) and, as
+\* context.bin, the description of the cell in terms of the variable of the histogram it is a cell of.
+\* The consumer writes into context.bins (Mutate, for the cells of the first histogram) before it pulls
+\* the next cell.
+LastTouched == IF it = <<>> THEN TRUE ELSE (it[Len(it)].h # 1 \/ it[Len(it)].touched # 0)
+Yielded(h, n) == LET idx == CellSeq(edges)[n]  f == IterFlow[h] IN
+                 [h |-> h, idx |-> idx, e |-> CellEdges(idx, edges), content |-> Final[f.k].bins[idx],
+                  bins |-> hctx, bvar |-> f.var, touched |-> 0,                  \* copy.deepcopy(hist_context)
+                  bin |-> [e |-> CellEdges(idx, edges), var |-> f.var]]          \* create_edges_str(bin_edges, variable)
+\* the cells of the first histogram, one by one
+IterNext == /\ phase = "iter" /\ Len(it) < NC /\ LastTouched
+            /\ it' = Append(it, Yielded(1, Len(it) + 1))
+            /\ UNCHANGED Kept /\ UNCHANGED <<phase, round, out, outs, cst>>
+\* the cells of a later histogram (no consumer in between: one step)
+IterHist == /\ phase = "iter" /\ Len(it) >= NC /\ Len(it) < Len(IterFlow) * NC /\ LastTouched
+            /\ LET h == (Len(it) \div NC) + 1 IN it' = it \o [n \in 1..NC |-> Yielded(h, n)]
+            /\ UNCHANGED Kept /\ UNCHANGED <<phase, round, out, outs, cst>>
 Mutate == /\ phase = "iter" /\ it # <<>> /\ ~LastTouched
           /\ it' = [it EXCEPT ![Len(it)].touched = Len(it)]                  \* context["bins"]["touched"] = n
-          /\ UNCHANGED Kept /\ UNCHANGED <<phase, round, out, outs>>
-IterEnd == /\ phase = "iter" /\ Len(it) = Len(CellSeq(edges)) /\ LastTouched
-           /\ phase' = "done" /\ UNCHANGED Kept /\ UNCHANGED <<round, out, outs, it>>
-Next == FillInside \/ FillUnderflow \/ FillOverflow \/ StartCompute \/ ComputeNext \/ WriteCtx \/ ComputeStop
-        \/ IterNext \/ Mutate \/ IterEnd
+          /\ UNCHANGED Kept /\ UNCHANGED <<phase, round, out, outs, cst>>
+IterEnd == /\ phase = "iter" /\ Len(it) = Len(IterFlow) * NC /\ LastTouched
+           /\ phase' = "done" /\ UNCHANGED Kept /\ UNCHANGED <<round, out, outs, it, cst>>
+Next == FillInside \/ FillRaises \/ FillUnderflow \/ FillOverflow \/ StartCompute \/ ComputeNext \/ WriteCtx \/ ComputeStop
+        \/ IterNext \/ IterHist \/ Mutate \/ IterEnd
 Spec == Init /\ [][Next]_vars
 Done == phase = "done"
 
@@ -177,7 +270,19 @@ TypeOK == /\ phase \in {"fill", "compute", "iter", "done"} /\ pos \in 0..Len(flo
 AsWritten == /\ DimWritten(EdgesWritten(sc.edges, sc.form)) = Len(sc.edges) /\ ReadEdges = sc.edges
              /\ DOMAIN cells = Cells(sc.edges)
 \* C11: every cell holds exactly the sub-flow of the values whose argument falls into it, in arrival order
-PerCell == \A idx \in Cells(edges) : cells[idx] = SubFlowUpTo(flow, edges, idx, pos)
+\* (of the values its analysis could digest: a private copy raises on the others as well)
+PerCell == \A idx \in Cells(edges) : cells[idx] = Recorded(flow, SubFlowUpTo(flow, edges, idx, pos))
+\* fill() raises what the private copy of the cell raises - for the failing values inside the edges, for no other
+Propagates == errs = ErrsSem(edges, flow, pos)
+InsideNotIgnored == [][(phase = "fill" /\ pos < Len(flow) /\ pos' = pos + 1 /\ IsCell(CellOf(flow[pos + 1].x, edges), edges)) =>
+                         IF flow[pos + 1].f = "none"
+                         THEN cells'[CellOf(flow[pos + 1].x, edges)] = Append(cells[CellOf(flow[pos + 1].x, edges)], pos + 1) /\ errs' = errs
+                         ELSE errs' = Append(errs, [pos |-> pos + 1, exc |-> flow[pos + 1].f]) /\ cells' = cells]_vars
+\* the state of a cell's copy is changed by that cell's own fill / compute only: after k compute() calls
+\* every copy has served k (stateful kinds: one result per call)
+OwnState == \A idx \in Cells(edges) :
+              /\ cst[idx].seen = (IF Stateful(sc.kind) THEN round + Len(out) ELSE 0)
+              /\ cst[idx].log <= cst[idx].seen
 \* the analysis object handed to the constructor is only a template: it is never filled
 TemplateUntouched == tmpl = <<>>
 \* a fill changes at most the cell of the value
@@ -185,11 +290,11 @@ NoCrossTalk == [][phase = "fill" /\ pos < Len(flow) /\ pos' = pos + 1 =>
                     \A idx \in Cells(edges) : idx # CellOf(flow[pos + 1].x, edges) => cells'[idx] = cells[idx]]_vars
 \* values outside the edges are ignored
 OutsideIgnored == [][(phase = "fill" /\ pos < Len(flow) /\ pos' = pos + 1 /\ ~IsCell(CellOf(flow[pos + 1].x, edges), edges)) =>
-                       (cells' = cells /\ last' = last /\ hctx' = hctx)]_vars
+                       (cells' = cells /\ last' = last /\ hctx' = hctx /\ errs' = errs /\ cst' = cst)]_vars
 \* the cells partition the values inside the edges
 CellsPartition == \A i \in 1..pos :
                     Cardinality({idx \in Cells(edges) : \E j \in 1..Len(cells[idx]) : cells[idx][j] = i})
-                      = (IF IsCell(CellOf(flow[i].x, edges), edges) THEN 1 ELSE 0)
+                      = (IF IsCell(CellOf(flow[i].x, edges), edges) /\ flow[i].f = "none" THEN 1 ELSE 0)
 \* border values: the lower edge belongs to the cell, the upper edge to the next one / overflow
 Borders == \A i \in 1..pos : \A d \in 1..Len(edges) :
              LET c == CellOf(flow[i].x, edges)[d]  e == edges[d]  x == flow[i].x[d] IN
@@ -200,17 +305,21 @@ Borders == \A i \in 1..pos : \A d \in 1..Len(edges) :
 \* so far, each histogram with the arriving context of the inside value filled last
 Prefix(n) == SubSeq(flow, 1, n)
 BinsOf(hs) == [k \in 1..Len(hs) |-> hs[k].bins]
+\* (the k-th compute() of an analysis with state: what a private copy yields that has served the same
+\* compute() calls before, SIBSemH)
+NS == [j \in 1..Len(outs) |-> outs[j].n]
 ComputeZip == \A k \in 1..Len(outs) :
-                /\ BinsOf(outs[k].hists) = SIBSem(sc.kind, edges, Prefix(outs[k].n))
-                /\ \A j \in 1..Len(outs[k].hists) : outs[k].hists[j].ctx = HistCtxSem(edges, Prefix(outs[k].n))
-\* calling compute() again at once gives the same again
-RepeatSame == Len(outs) >= 2 => (BinsOf(outs[2].hists) = BinsOf(outs[1].hists) /\ outs[2].n = outs[1].n)
-OutIsPrefix == LET e == SIBSem(sc.kind, edges, Prefix(pos)) IN
+                /\ BinsOf(outs[k].hists) = SIBSemH(sc.kind, edges, flow, NS, k)
+                /\ ~Stateful(sc.kind) => BinsOf(outs[k].hists) = SIBSem(sc.kind, edges, Prefix(outs[k].n))
+                /\ \A j \in 1..Len(outs[k].hists) : outs[k].hists[j].ctx \in HistCtxSet(edges, Prefix(outs[k].n))
+\* calling compute() again at once gives the same again (unless compute() itself changes the analysis)
+RepeatSame == (Len(outs) >= 2 /\ ~Stateful(sc.kind)) => (BinsOf(outs[2].hists) = BinsOf(outs[1].hists) /\ outs[2].n = outs[1].n)
+OutIsPrefix == LET e == SIBSemH(sc.kind, edges, flow, Append(NS, pos), round + 1) IN
                phase = "compute" => (Len(out) <= Len(e) /\ BinsOf(out) = SubSeq(e, 1, Len(out)))
-LastIsLastInside == last = LastInside(flow, edges, pos)
+LastIsLastInside == last = LastInsideGood(flow, edges, pos)
 \* the histograms' context: the last inside value's context as it arrived - nothing an inner element wrote,
 \* nothing a consumer wrote into an earlier histogram's context
-HistContext == /\ hctx.mut = 0 /\ hctx = HistCtxSem(edges, Prefix(pos))
+HistContext == /\ hctx.mut = 0 /\ hctx \in HistCtxSet(edges, Prefix(pos))
                /\ \A j \in 1..Len(out) : out[j].w \in {0, j} /\ out[j].ctx = hctx
 WriteIsLocal == [][(phase = "compute" /\ Len(out') = Len(out) /\ out' # out) =>
                      (\A j \in 1..(Len(out) - 1) : out'[j] = out[j]) /\ hctx' = hctx /\ cells' = cells]_vars
@@ -218,18 +327,30 @@ WriteIsLocal == [][(phase = "compute" /\ Len(out') = Len(out) /\ out' # out) =>
 FlowContexts == /\ vctx = [i \in 1..Len(flow) |-> IF i <= pos THEN FlowCtxSem(sc.kind, edges, flow)[i] ELSE ArrivingCtx(flow, i)]
                 /\ \A i \in 1..Len(flow) : vctx[i].src = ArrivingCtx(flow, i).src
 \* IterateBins: every cell once, with its own edges and content
+\* (for every histogram the element is given: what it yields is IterSemV of that histogram alone)
+ItOf(h) == SubSeq(it, (h - 1) * NC + 1, h * NC)       \* (IterNext: NC cells per histogram, in the order of IterFlow)
 IterOnceEach == (phase = "done" /\ Final # <<>>) =>
-                  /\ [n \in 1..Len(it) |-> [idx |-> it[n].idx, e |-> it[n].e, content |-> it[n].content]] = IterSem(Final[1].bins, edges)
-                  /\ Len(it) = Cardinality(Cells(edges))
-                  /\ {it[n].idx : n \in 1..Len(it)} = Cells(edges)
-                  /\ \A n \in 1..Len(it) : it[n].content = Final[1].bins[it[n].idx]
-                                           /\ \A d \in 1..Len(edges) : it[n].e[d] = <<edges[d][it[n].idx[d]], edges[d][it[n].idx[d] + 1]>>
+                  \A h \in 1..Len(IterFlow) :
+                  LET mine == ItOf(h)  hist == Final[IterFlow[h].k].bins IN
+                  /\ [n \in 1..Len(mine) |-> [idx |-> mine[n].idx, e |-> mine[n].e, content |-> mine[n].content, bin |-> mine[n].bin]]
+                       = IterSemV(hist, edges, IterFlow[h].var)
+                  /\ [n \in 1..Len(mine) |-> [idx |-> mine[n].idx, e |-> mine[n].e, content |-> mine[n].content]] = IterSem(hist, edges)
+                  /\ Len(mine) = Cardinality(Cells(edges))
+                  /\ {mine[n].idx : n \in 1..Len(mine)} = Cells(edges)
+                  /\ \A n \in 1..Len(mine) : mine[n].content = hist[mine[n].idx]
+                                           /\ \A d \in 1..Len(edges) : mine[n].e[d] = <<edges[d][mine[n].idx[d]], edges[d][mine[n].idx[d] + 1]>>
+\* context.bin of every cell is its own: its edges, described in terms of the variable of the histogram it
+\* is a cell of - whatever the element has iterated before (in this run or an earlier one)
+OwnDescription == \A n \in 1..Len(it) : /\ it[n].bin = BinSem(it[n].idx, edges, IterFlow[it[n].h].var)
+                                         /\ it[n].bvar = IterFlow[it[n].h].var
 \* every cell's context.bins is its own: what the consumer writes into one is seen in no other, and the
 \* histogram's context stays as it was
-OwnBinsContext == \A n \in 1..Len(it) : it[n].touched \in {0, n} /\ it[n].bins = hctx
+OwnBinsContext == \A n \in 1..Len(it) : it[n].touched \in {0, n} /\ it[n].bins = hctx /\ (it[n].h # 1 => it[n].touched = 0)
 MutateIsLocal == [][(phase = "iter" /\ Len(it') = Len(it) /\ it' # it) =>
                       (\A n \in 1..(Len(it) - 1) : it'[n] = it[n]) /\ hctx' = hctx]_vars
-FreshWhenYielded == [][(Len(it') = Len(it) + 1) => it'[Len(it')].touched = 0 /\ it'[Len(it')].bins = hctx]_vars
+FreshWhenYielded == [][(Len(it') > Len(it)) => \A n \in (Len(it) + 1)..Len(it') : it'[n].touched = 0 /\ it'[n].bins = hctx]_vars
+\* the iteration changes no cell and no analysis
+IterReadsOnly == [][phase = "iter" => (cells' = cells /\ cst' = cst /\ outs' = outs /\ errs' = errs)]_vars
 \* MapBins: same cells, every cell the mapping of the corresponding cell (as many histograms as the
 \* shortest per-cell result)
 MapShape == (phase = "done" /\ Final # <<>>) =>
@@ -245,11 +366,17 @@ NestAll(hs) == [k \in 1..Len(hs) |-> Nest(hs[k], edges)]
 Emitted == Done => PrintT(ToJson([
    edges |-> edges, form |-> sc.form, kind |-> sc.kind, flow |-> flow, cut |-> sc.cut,
    route |-> [i \in 1..Len(flow) |-> CellOf(flow[i].x, edges)],
+   errs |-> errs,
    computes |-> [k \in 1..Len(outs) |-> [n |-> outs[k].n, hists |-> NestAll(BinsOf(outs[k].hists)),
                                           hctx |-> HistCtxSem(edges, Prefix(outs[k].n)),
+                                          hctx_any |-> HistCtxSet(edges, Prefix(outs[k].n)),
                                           last |-> LastInside(flow, edges, outs[k].n)]],
    hists |-> NestAll(BinsOf(Final)), last |-> last, hctx |-> hctx, vctx |-> vctx,
-   iter |-> [n \in 1..Len(it) |-> [idx |-> it[n].idx, e |-> it[n].e, content |-> it[n].content]],
+   iter |-> [n \in 1..(IF it = <<>> THEN 0 ELSE NC) |-> [idx |-> it[n].idx, e |-> it[n].e, content |-> it[n].content]],
+   iters |-> [h \in 1..(IF it = <<>> THEN 0 ELSE Len(IterFlow)) |->
+                [run |-> IterFlow[h].run, var |-> IterFlow[h].var, k |-> IterFlow[h].k,
+                 \* (content: bins[idx] of histogram k, IterOnceEach)
+                 cells |-> [n \in 1..NC |-> LET c == it[(h - 1) * NC + n] IN [idx |-> c.idx, bin |-> c.bin]]]],       \* (e = bin.e)
    maps |-> IF Final = <<>> THEN <<>>
             ELSE [m \in {"tag", "dup", "drop", "seen", "src"} |-> NestAll(MapSem(m, Final[1].bins, edges))]]))
 =============================================================================
